@@ -54,6 +54,13 @@ CHECKS = {
             'Because a serialising scheduler hides unsynchronised accesses, the same bodies run free in the TSan build on brand-new worlds with 8 threads released together.',
             'Code between two scheduling points is atomic under the scheduler; races inside such stretches are only covered by TSan happens-before analysis (sampled executions, not exhaustive). Sequential consistency assumed. Worlds without random models.',
             'DESIGN.md section 3 C14'),
+    'C09': ('exploration', 'E1',
+            'bounded exhaustive enumeration (full product of cross sections x coordinate systems x 2-D lattice x all request lists of length <= 2) with a differential oracle against the 3-D interface',
+            'For every cross section of the alphabet (5 origins x 7 directions including oblique, negative and non-axis-aligned ones, both coordinate systems) a rich world is built and every 2-D '
+            'lattice point is queried with every request list; the harness computes the 3-D point from the statement and compares block by block with the 3-D interface (velocity: in-section projection). '
+            'Adjacent-double pairs straddling feature boundaries are queried in->out->in. Worlds without a cross section must refuse all five 2-D entry points with a std::exception.',
+            'Non-velocity blocks are only judged at robust points (neighbours at 1e-6 scale agree); the rest is counted as skipped.',
+            'DESIGN.md section 3 C09'),
 }
 NOT_YET = {}
 
